@@ -103,7 +103,7 @@ static void build_request(const struct spec *s0, struct dp_buf *w)
 
 /* ------------------------------------------------------------------ */
 enum { RQ_SHORT, RQ_RESPONSE, RQ_MALFORMED, RQ_WELLFORMED };
-static const char *rq_name[] = { "too-short", "response-message", "malformed", "wellformed" };
+static const char *rq_name[] = { "too-short", "response", "malformed", "wellformed" };
 struct qref {
 	int cls, opcode, nq, has_opt, reserved_label, lenient, any_nul, err; uint16_t id, flags; unsigned opt_size;
 	struct { char text[320]; size_t len; int type, class_, has_nul; } q[6];
@@ -184,7 +184,10 @@ static void judge_request(const struct spec *s, const uint8_t *msg, size_t len, 
 		if (s->canon && full) mc_fail("C37/wellformed-query-not-delivered", "%s: canonical standard query did not reach the user callback", g_ctx);
 		if (R.cls == RQ_WELLFORMED && R.opcode && !R.lenient && !R.any_nul) {
 			MC_COUNT("oracle_notimpl_checked");
-			if (!r->have) { mc_fail("C37/nonstandard-opcode-not-answered", "%s: opcode %d: no response at all", g_ctx, R.opcode); return; }
+			if (!r->have) {
+				/* keyed apart: a message without any question is dropped before the opcode is looked at (mm_calloc(.., 0) is NULL) */
+				mc_fail(R.nq == 0 ? "C37/nonstandard-opcode-not-answered:qdcount=0" : "C37/nonstandard-opcode-not-answered", "%s: opcode %d: no response at all", g_ctx, R.opcode); return;
+			}
 			if (r->n < 12 || (dw_get_u16(r->b + 2) & 0x800f) != 0x8004) { mc_fail("C37/nonstandard-opcode-not-answered-notimpl", "%s: opcode %d answered with flags %04x", g_ctx, R.opcode, r->n >= 4 ? dw_get_u16(r->b + 2) : 0); return; }
 		}
 	}
